@@ -5,9 +5,16 @@
 long long ep_live, ep_errors;
 void *ep_alloc(size_t n) { void *p = malloc(n ? n : 1); if (p) ++ep_live; return p; }
 void ep_free(void *p) { if (p) { if (--ep_live < 0) ++ep_errors; } free(p); }
+/* calloc blocks handed out through FLATCC_CALLOC are remembered so that FLATCC_FREE (which also frees realloc'ed builder buffers and
+   finalized buffers) can tell them apart */
+long long ep_clive, ep_cbytes;
+static struct { void *p; size_t n; } ep_tab[4096];
+void *ep_calloc(size_t nm, size_t n) { void *p = calloc(nm ? nm : 1, n ? n : 1); int i; if (p) { for (i = 0; i < 4096; ++i) if (!ep_tab[i].p) { ep_tab[i].p = p; ep_tab[i].n = nm * n; break; } ++ep_clive; ep_cbytes += (long long)(nm * n); } return p; }
+void ep_gfree(void *p) { int i; if (p) for (i = 0; i < 4096; ++i) if (ep_tab[i].p == p) { ep_tab[i].p = 0; --ep_clive; ep_cbytes -= (long long)ep_tab[i].n; break; } free(p); }
 #define RO_E_LIVE (ep_live * 1000 + ep_errors)
+#define RO_C_LIVE ep_cbytes
 /* after flatcc_builder_clear / flatcc_emitter_clear at the end of every history: pages still live */
-#define RO_AFTER_CLOSE() printf("EPLIVE=%lld ", ep_live * 1000 + ep_errors)
+#define RO_AFTER_CLOSE() printf("EPLIVE=%lld ", ep_live * 1000 + ep_errors + (ep_clive ? 500 : 0))
 #include "reset_ops.h"
 
 int main(void)
@@ -23,7 +30,7 @@ int main(void)
             while (*p && *p != ' ' && *p != '\n' && *p != '\r') ++p;
             if (*p) *p++ = 0;
         }
-        ep_live = 0; ep_errors = 0;
+        ep_live = 0; ep_errors = 0; ep_clive = 0; ep_cbytes = 0; memset(ep_tab, 0, sizeof(ep_tab));
         ro_run_line(tok, (int)n);
 
     }
